@@ -8,11 +8,13 @@ package gcsafe
 import (
 	"fmt"
 	"os"
+	"reflect"
 	"runtime"
 	"strconv"
 	"sync/atomic"
 	"testing"
 	"time"
+	"unsafe"
 
 	"verif/harness/sim"
 
@@ -216,6 +218,146 @@ func TestRemovedComponentsAreCollectable(t *testing.T) {
 				t.Fatalf("%s (n=%d): only %d of %d payloads were collected after their components were removed", sc.name, n, atomic.LoadInt64(&finalized), n)
 			}
 			runtime.KeepAlive(w)
+		}
+	}
+}
+
+// F: a component whose only reference is a func value (a closure is a pointer to a heap object).
+// Repaired defect (fix 65b60f3): isTrivial did not list reflect.Func / reflect.UnsafePointer, such a
+// component was classified pointer-free and moved with the write-barrier-free raw copy; with the
+// collector running the closures were lost within milliseconds ("found bad pointer in Go heap", or
+// another closure's value). The test keeps the collector busy while every entity is moved between
+// two tables, and calls every closure after each round.
+type F struct {
+	Fn func() int
+}
+
+var fnSink []func() int
+
+func TestFuncComponentsSurviveMovesAndGC(t *testing.T) {
+	w := ecs.NewWorld(64)
+	fm := ecs.NewMap1[F](w)
+	am := ecs.NewMap1[A](w)
+	n := 6000
+	ents := make([]ecs.Entity, n)
+	for i := 0; i < n; i++ {
+		v := i
+		ents[i] = fm.NewEntity(&F{Fn: func() int { return v }})
+	}
+	var stop atomic.Bool
+	done := make(chan struct{})
+	go func() {
+		for !stop.Load() {
+			runtime.GC()
+		}
+		close(done)
+	}()
+	get := ecs.NewMap[F](w)
+	dur := 2 * time.Second
+	if thorough() {
+		dur = 20 * time.Second
+	}
+	deadline := time.Now().Add(dur)
+	for round := 0; time.Now().Before(deadline); round++ {
+		for i, e := range ents {
+			if round%2 == 0 {
+				am.Add(e, &A{V: int64(i)})
+			} else {
+				am.Remove(e)
+			}
+			k := -i - 1
+			fnSink = append(fnSink[:0], func() int { return k }) // garbage of the same size class
+		}
+		for i, e := range ents {
+			if got := get.Get(e).Fn(); got != i {
+				stop.Store(true)
+				<-done
+				t.Fatalf("VERIF-REPLAY seed=%d: round %d: the closure stored in entity #%d returns %d", seed(), round, i, got)
+			}
+		}
+	}
+	stop.Store(true)
+	<-done
+}
+
+// The classification behind the copy strategy, tied to the Coq model (Model/GoType.v is_trivial):
+// (1) an independent oracle that enumerates EVERY reflect.Kind (an unknown kind fails the test), and
+// (2) the sample shapes of Properties/C11.v Example C11_classification_samples, in the same order,
+//
+//	with the vector computed there by vm_compute.
+func containsPointerWord(t *testing.T, tp reflect.Type) bool {
+	switch tp.Kind() {
+	case reflect.Bool, reflect.Int, reflect.Int8, reflect.Int16, reflect.Int32, reflect.Int64,
+		reflect.Uint, reflect.Uint8, reflect.Uint16, reflect.Uint32, reflect.Uint64, reflect.Uintptr,
+		reflect.Float32, reflect.Float64, reflect.Complex64, reflect.Complex128:
+		return false
+	case reflect.Chan, reflect.Func, reflect.Interface, reflect.Map, reflect.Pointer, reflect.Slice,
+		reflect.String, reflect.UnsafePointer:
+		return true
+	case reflect.Array:
+		return containsPointerWord(t, tp.Elem())
+	case reflect.Struct:
+		for i := 0; i < tp.NumField(); i++ {
+			if containsPointerWord(t, tp.Field(i).Type) {
+				return true
+			}
+		}
+		return false
+	default:
+		t.Fatalf("reflect.Kind %v is not classified by the oracle", tp.Kind())
+		return true
+	}
+}
+
+func TestIsTrivialClassification(t *testing.T) {
+	type inner struct {
+		A int32
+		B [2]float64
+	}
+	samples := []struct {
+		v    any
+		triv bool // Model/GoType.v is_trivial on the same shape (C11_classification_samples)
+	}{
+		{int64(0), true},                      // TScalar
+		{(*int)(nil), false},                  // TPtr
+		{[]int(nil), false},                   // TSlice
+		{map[int]int(nil), false},             // TMap
+		{(chan int)(nil), false},              // TChan
+		{struct{ I any }{}, false},            // TStruct [TIface]
+		{"", false},                           // TString
+		{(func() int)(nil), false},            // TFunc
+		{unsafe.Pointer(nil), false},          // TUnsafePtr
+		{struct{ F func() int }{}, false},     // TStruct [TFunc]
+		{struct{ P unsafe.Pointer }{}, false}, // TStruct [TUnsafePtr]
+		{inner{}, true},                       // TStruct [TScalar; TArray 2 TScalar]
+		{[3]inner{}, true},                    // TArray 3 (TStruct [...])
+		{[2]struct {
+			X int
+			F func()
+		}{}, false}, // TArray 2 (TStruct [TScalar; TFunc])
+		{struct {
+			A inner
+			S struct{ Z []byte }
+		}{}, false}, // nested slice
+		{struct{}{}, true}, // TStruct []
+		{uintptr(0), true}, // TScalar (uintptr is not a pointer for the collector)
+		{[0]*int{}, false}, // TArray 0 TPtr: the code looks at the element type only
+	}
+	for i, s := range samples {
+		tp := reflect.TypeOf(s.v)
+		got := ecs.VerifIsTrivial(tp)
+		if got != s.triv {
+			t.Fatalf("sample %d (%v): isTrivial = %v, the model says %v", i, tp, got, s.triv)
+		}
+		if got == containsPointerWord(t, tp) {
+			t.Fatalf("sample %d (%v): isTrivial = %v but the type %s a pointer word", i, tp, got, map[bool]string{true: "contains", false: "does not contain"}[!got])
+		}
+	}
+	// every kind is covered by the samples or by the scalar list
+	for _, v := range []any{false, int(0), int8(0), int16(0), int32(0), uint(0), uint8(0), uint16(0), uint32(0), uint64(0), float32(0), float64(0), complex64(0), complex128(0)} {
+		tp := reflect.TypeOf(v)
+		if !ecs.VerifIsTrivial(tp) || containsPointerWord(t, tp) {
+			t.Fatalf("scalar %v not trivial", tp)
 		}
 	}
 }
